@@ -579,7 +579,7 @@ def destLines (stdinMode : Bool) (path : Bytes) (ml : MatchList) : List Bytes :=
 
 namespace Insp
 
-theorem inspect_go_false (width : Bytes → Nat) (home confpath : Bytes) (stdinMode : Bool) (path : Bytes)
+theorem inspect_go_false (width : Bytes → Nat → Nat) (home confpath : Bytes) (stdinMode : Bool) (path : Bytes)
     (rest pending : MatchList) (out : Bytes) :
     matchesInspect.go width home confpath stdinMode false path rest pending out =
       out ++ (destLines stdinMode path rest).flatten := by
@@ -591,23 +591,25 @@ theorem inspect_go_false (width : Bytes → Nat) (home confpath : Bytes) (stdinM
     · simp [h, ih, destLines]; try (cases mh.ty.info.label <;> rfl)
     · simp [h, ih, destLines]; try (cases mh.ty.info.label <;> rfl)
 
-theorem lines_are_actions (width : Bytes → Nat) (home confpath : Bytes) (stdinMode : Bool) (path : Bytes) (ml : MatchList) :
+theorem lines_are_actions (width : Bytes → Nat → Nat) (home confpath : Bytes) (stdinMode : Bool) (path : Bytes) (ml : MatchList) :
     matchesInspect width home confpath stdinMode false path ml = (destLines stdinMode path ml).flatten := by
   unfold matchesInspect
   rw [inspect_go_false]; simp
 
 end Insp
 
-theorem inspect_lines_are_actions (width : Bytes → Nat) (home confpath : Bytes) (stdinMode : Bool) (path : Bytes) (ml : MatchList) :
+theorem inspect_lines_are_actions (width : Bytes → Nat → Nat) (home confpath : Bytes) (stdinMode : Bool) (path : Bytes) (ml : MatchList) :
     matchesInspect width home confpath stdinMode false path ml = (destLines stdinMode path ml).flatten :=
   Insp.lines_are_actions width home confpath stdinMode path ml
 
-/-- Marker columns for one explanation line: for a value `val`, a non-empty match `[beg, end)` that does
+/-! Marker columns for one explanation line: for a value `val`, a non-empty match `[beg, end)` that does
 not begin inside the leading blanks of its line and does not begin at a newline, the text printed is:
 the prefix, the line of `val` containing `beg` without its leading blanks, and a marker line in which
 `^` stands in the display column of the first matched byte and `$` in the column of the last matched
-character (directly after `^` for a match of width 1), for every width function that is additive. -/
-def Additive (width : Bytes → Nat) : Prop := ∀ a b, width (a ++ b) = width a + width b
+character (directly after `^` for a match of width 1), for EVERY width function (`width str len` stands for
+`strnwidth(str, len)`, see Model/Inspect.lean): the number of blanks before `^` is the BYTE length of the prefix
+`conf:lno: key: ` plus the width of the quoted text before the match.  That this is the display column of the first
+matched character - the prefix consists of one-column one-byte characters - is `marker_display_columns` below. -/
 
 /-- The line of `val` that contains offset `beg`: text after the last newline before `beg`, up to the next newline. -/
 def lineOf (val : Bytes) (beg : Nat) : Bytes × Nat :=
@@ -752,7 +754,7 @@ theorem drop_nspaces_takeWhile (l : Bytes) :
     · have hn : nspaces (a :: r) = 0 := by simp [nspaces, hb]
       rw [hn]; rfl
 
-theorem marker_cols (width : Bytes → Nat) (hw : Additive width) (home confpath : Bytes) (mh : Match) (key val : Bytes)
+theorem marker_cols (width : Bytes → Nat → Nat) (home confpath : Bytes) (mh : Match) (key val : Bytes)
     (beg end_ : Nat) (s : Bytes)
     (hins : mh.ty.isInspect = true) (hk : mh.key = some key) (hv : mh.val = some val)
     (hsub : mh.subs = [{ str := s, off := some (beg, end_) }])
@@ -762,13 +764,12 @@ theorem marker_cols (width : Bytes → Nat) (hw : Additive width) (home confpath
     let lstart := (lineOf val beg).2
     let shown := line.drop (nspaces line)
     let pre := inspectPrefix home confpath mh.lno ++ key ++ [58, 32]
-    let w := width ((val.drop beg).take (end_ - beg))
+    let w := width (val.drop beg) (end_ - beg)
     exprInspect width home confpath mh =
       pre ++ shown ++ [10] ++
-      spaces (pre.length + width ((val.drop (lstart + nspaces line)).take (beg - (lstart + nspaces line)))) ++ [94] ++
+      spaces (pre.length + width (val.drop (lstart + nspaces line)) (beg - (lstart + nspaces line))) ++ [94] ++
       spaces (w - 2) ++ [36, 10] := by
   intro line lstart shown pre w
-  have _ := hw
   have hl0 : lineStart val beg (val.length + 1) 0 = lstart := lineStart_eq val beg (by omega) hnl
   have hline : line = (val.drop lstart).takeWhile (· != 10) := rfl
   have hns : nspaces (val.drop lstart) = nspaces line := by rw [hline, nspaces_takeWhile]
@@ -777,7 +778,7 @@ theorem marker_cols (width : Bytes → Nat) (hw : Additive width) (home confpath
     rfl
   have hlead' : lstart + nspaces line ≤ beg := hlead
   have hpre : pre = inspectPrefix home confpath mh.lno ++ key ++ [58, 32] := rfl
-  have hw' : w = width ((val.drop beg).take (end_ - beg)) := rfl
+  have hw' : w = width (val.drop beg) (end_ - beg) := rfl
   clear_value shown pre w
   clear hline
   clear_value line lstart
@@ -798,7 +799,7 @@ theorem marker_cols (width : Bytes → Nat) (hw : Additive width) (home confpath
 
 end Insp
 
-theorem marker_columns (width : Bytes → Nat) (hw : Additive width) (home confpath : Bytes) (mh : Match) (key val : Bytes)
+theorem marker_columns (width : Bytes → Nat → Nat) (home confpath : Bytes) (mh : Match) (key val : Bytes)
     (beg end_ : Nat) (s : Bytes)
     (hins : mh.ty.isInspect = true) (hk : mh.key = some key) (hv : mh.val = some val)
     (hsub : mh.subs = [{ str := s, off := some (beg, end_) }])
@@ -808,11 +809,148 @@ theorem marker_columns (width : Bytes → Nat) (hw : Additive width) (home confp
     let lstart := (lineOf val beg).2
     let shown := line.drop (nspaces line)
     let pre := inspectPrefix home confpath mh.lno ++ key ++ [58, 32]
-    let w := width ((val.drop beg).take (end_ - beg))
+    let w := width (val.drop beg) (end_ - beg)
     exprInspect width home confpath mh =
       pre ++ shown ++ [10] ++
-      spaces (pre.length + width ((val.drop (lstart + nspaces line)).take (beg - (lstart + nspaces line)))) ++ [94] ++
+      spaces (pre.length + width (val.drop (lstart + nspaces line)) (beg - (lstart + nspaces line))) ++ [94] ++
       spaces (w - 2) ++ [36, 10] :=
-  Insp.marker_cols width hw home confpath mh key val beg end_ s hins hk hv hsub hne hle hnl hlead
+  Insp.marker_cols width home confpath mh key val beg end_ s hins hk hv hsub hne hle hnl hlead
+
+
+/-! ### Display columns: `strnwidth` over a prefix of one-byte one-column characters
+
+`marker_columns` counts the prefix `conf:lno: key: ` in BYTES (`expr_inspect` adds the return value of `fprintf`
+and `strlen(mh_key) + 2`).  The blanks before `^` are the display width of everything printed before the first
+matched byte exactly when the prefix consists of one-byte one-column characters (`OneColumn`: printable ASCII in
+the C and UTF-8 locales); with a multibyte or wide character in the configuration path or the header name the
+markers are displaced (`markerWit`, evaluated). -/
+
+/-- `c` is a character of one byte and one column wherever it stands. -/
+def OneColumn (mb : Bytes → Option (Nat × Nat)) (wcw : Nat → Int) (c : UInt8) : Prop :=
+  ∀ rest, ∃ wc, mb (c :: rest) = some (1, wc) ∧ wcw wc = 1
+
+namespace Insp
+
+theorem go_acc (mb : Bytes → Option (Nat × Nat)) (wcw : Nat → Int) :
+    ∀ (fuel rem : Nat) (s : Bytes) (w : Nat),
+      strnwidth.go mb wcw fuel rem s w = w + strnwidth.go mb wcw fuel rem s 0 := by
+  intro fuel
+  induction fuel with
+  | zero => intro rem s w; simp [strnwidth.go]
+  | succ n ih =>
+    intro rem s w
+    simp only [strnwidth.go]
+    by_cases hr : (rem == 0) = true
+    · simp [hr]
+    · simp only [hr, Bool.false_eq_true, ↓reduceIte]
+      cases hm : mb s with
+      | none =>
+        dsimp only
+        rw [ih _ _ (w + 1), ih _ _ (0 + 1)]; omega
+      | some p =>
+        obtain ⟨k, wc⟩ := p
+        cases k with
+        | zero => simp
+        | succ k =>
+          dsimp only
+          rw [ih _ _ (w + _), ih _ _ (0 + _)]; omega
+
+theorem go_prefix (mb : Bytes → Option (Nat × Nat)) (wcw : Nat → Int) (s : Bytes) (k : Nat) :
+    ∀ (pre : Bytes) (fuel : Nat), (∀ c ∈ pre, OneColumn mb wcw c) →
+      strnwidth.go mb wcw (pre.length + fuel) (pre.length + k) (pre ++ s) 0 =
+        pre.length + strnwidth.go mb wcw fuel k s 0 := by
+  intro pre
+  induction pre with
+  | nil => intro fuel _; simp
+  | cons c r ih =>
+    intro fuel h
+    obtain ⟨wc, hmb, hw⟩ := h c (List.mem_cons_self ..) (r ++ s)
+    have e1 : (c :: r).length + fuel = (r.length + fuel) + 1 := by simp only [List.length_cons]; omega
+    have e2 : ((c :: r).length + k == 0) = false := by
+      cases hh : ((c :: r).length + k == 0) with
+      | false => rfl
+      | true => have := eq_of_beq hh; simp only [List.length_cons] at this; omega
+    rw [e1]
+    simp only [strnwidth.go, e2, Bool.false_eq_true, ↓reduceIte, List.cons_append, hmb, hw]
+    rw [go_acc]
+    have e3 : (c :: r).length + k - (0 + 1) = r.length + k := by simp only [List.length_cons]; omega
+    rw [e3]
+    have e4 : List.drop (0 + 1) (c :: (r ++ s)) = r ++ s := rfl
+    rw [e4, ih fuel (fun x hx => h x (List.mem_cons_of_mem _ hx))]
+    simp only [List.length_cons]
+    show 0 + (1 : Int).toNat + _ = _
+    simp only [Int.toNat_one]; omega
+
+end Insp
+
+/-- Over a prefix of one-byte one-column characters `strnwidth` counts the bytes of the prefix. -/
+theorem strnwidth_prefix (mb : Bytes → Option (Nat × Nat)) (wcw : Nat → Int) (pre s : Bytes) (k : Nat)
+    (h : ∀ c ∈ pre, OneColumn mb wcw c) :
+    strnwidth mb wcw (pre ++ s) (pre.length + k) = pre.length + strnwidth mb wcw s k := by
+  unfold strnwidth
+  exact Insp.go_prefix mb wcw s k pre k h
+
+/-- **Display columns.**  For `width = strnwidth mb wcw` over ANY `mbtowc`/`wcwidth` (any locale, multibyte, wide and
+zero-width characters in the value): when the prefix `conf:lno: key: ` consists of one-byte one-column characters, the
+number of blanks before `^` is the display width of the first `|prefix| + (beg - lbeg)` bytes of the printed line
+(followed by the rest of the value) - everything printed before the first matched byte. -/
+theorem marker_display_columns (mb : Bytes → Option (Nat × Nat)) (wcw : Nat → Int) (home confpath : Bytes) (mh : Match)
+    (key val : Bytes) (beg end_ : Nat) (s : Bytes)
+    (hins : mh.ty.isInspect = true) (hk : mh.key = some key) (hv : mh.val = some val)
+    (hsub : mh.subs = [{ str := s, off := some (beg, end_) }])
+    (hne : beg < end_) (hle : end_ ≤ val.length) (hnl : val[beg]? ≠ some 10)
+    (hlead : (lineOf val beg).2 + nspaces (lineOf val beg).1 ≤ beg)
+    (hpre : ∀ c ∈ inspectPrefix home confpath mh.lno ++ key ++ [58, 32], OneColumn mb wcw c) :
+    let line := (lineOf val beg).1
+    let lstart := (lineOf val beg).2
+    let shown := line.drop (nspaces line)
+    let pre := inspectPrefix home confpath mh.lno ++ key ++ [58, 32]
+    let w := strnwidth mb wcw (val.drop beg) (end_ - beg)
+    exprInspect (strnwidth mb wcw) home confpath mh =
+      pre ++ shown ++ [10] ++
+      spaces (strnwidth mb wcw (pre ++ val.drop (lstart + nspaces line)) (pre.length + (beg - (lstart + nspaces line)))) ++ [94] ++
+      spaces (w - 2) ++ [36, 10] := by
+  intro line lstart shown pre w
+  rw [strnwidth_prefix mb wcw pre _ _ hpre]
+  exact marker_columns (strnwidth mb wcw) home confpath mh key val beg end_ s hins hk hv hsub hne hle hnl hlead
+
+/-! A small `mbtowc`/`wcwidth` pair for evaluated examples: ASCII, U+00E9 (two bytes, one column), U+4E2D (three bytes,
+two columns), U+0301 (two bytes, no column); every other byte >= 0x80 is an invalid sequence. -/
+namespace markerWit
+
+def mb : Bytes → Option (Nat × Nat)
+  | [] => some (0, 0)
+  | 0xE4 :: 0xB8 :: 0xAD :: _ => some (3, 0x4E2D)
+  | 0xC3 :: 0xA9 :: _ => some (2, 0xE9)
+  | 0xCC :: 0x81 :: _ => some (2, 0x301)
+  | c :: _ => if c < 128 then some (1, c.toNat) else none
+
+def wcw (wc : Nat) : Int :=
+  if wc == 0x4E2D then 2 else if wc == 0x301 then 0 else if wc == 0xE9 then 1
+  else if 32 ≤ wc && wc ≤ 126 then 1 else -1
+
+/-- header `S`, value `中é hi` + U+0301 + `!`, the pattern matched `hi` + U+0301 (bytes 6..10). -/
+def val : Bytes := [0xE4, 0xB8, 0xAD, 0xC3, 0xA9, 32, 104, 105, 0xCC, 0x81, 33]
+def entry (key : Bytes) : Match :=
+  { ty := .header, lno := 2, part := 0, subs := [{ str := [104, 105, 0xCC, 0x81], off := some (6, 10) }],
+    key := some key, val := some val }
+
+theorem ascii (c : UInt8) (h : c < 128) (rest : Bytes) : mb (c :: rest) = some (1, c.toNat) := by
+  unfold mb
+  split
+  · simp_all
+  · rename_i h1; simp at h1; exact absurd h (by rw [h1.1]; decide)
+  · rename_i h1; simp at h1; exact absurd h (by rw [h1.1]; decide)
+  · rename_i h1; simp at h1; exact absurd h (by rw [h1.1]; decide)
+  · rename_i h1; simp at h1; obtain ⟨rfl, _⟩ := h1; simp [h]
+
+/-- A list of printable ASCII bytes consists of one-byte one-column characters. -/
+theorem oneColumn (l : Bytes) (h : (l.all fun c => c < 128 && wcw c.toNat == 1) = true) : ∀ c ∈ l, OneColumn mb wcw c := by
+  intro c hc rest
+  have := List.all_eq_true.1 h c hc
+  simp only [Bool.and_eq_true, decide_eq_true_eq, beq_iff_eq] at this
+  exact ⟨c.toNat, ascii c this.1 rest, this.2⟩
+
+end markerWit
 
 end Mdsort.Proofs
